@@ -431,9 +431,9 @@ func init() {
 		ID:    "C21",
 		Units: append([]string{"fasthttp.(*Client).Do", "fasthttp.(*Client).hostClient", "fasthttp.(*Client).DoRedirects", "fasthttp.doRequestFollowRedirects", "fasthttp.AddMissingPort", "fasthttp.newClientTLSConfig", "fasthttp.tlsServerName", "fasthttp.(*HostClient).cachedTLSConfig", "fasthttp.(*URI).isHTTPS", "fasthttp.(*URI).isHTTP"}, clientUnits...),
 		Runs: []Run{
-			{Pkg: "fasthttp", Func: "vhC21ClientSchemes"},
-			{Pkg: "fasthttp", Func: "vhC21HostClient"},
-			{Pkg: "fasthttp", Func: "vhC21Redirect"},
+			{Pkg: "fasthttp", Func: "vhC21ClientSchemes", Modelled: true},
+			{Pkg: "fasthttp", Func: "vhC21HostClient", Modelled: true},
+			{Pkg: "fasthttp", Func: "vhC21Redirect", Modelled: true},
 		},
 		Assume: []string{clientAssume,
 			"crypto/tls is replaced by a transparent model (engine/interp/intr_tls.go): tls.Client wraps the dialled connection, reports the configured ServerName to it, the handshake succeeds, and Read/Write pass plaintext through while marking it as 'inside TLS'; nothing of the real TLS stack is checked. Natively (sample validation, replays) the real crypto/tls runs against the scripted connection, the handshake fails, and only the safety obligations (no https request bytes on a raw connection, no http request inside TLS) are evaluated",
